@@ -81,6 +81,8 @@ def cases(tier):
                 continue
             yield dict(kind="select", sel=list(sel))
     yield dict(kind="addup")
+    for i in range(len(OUTPUTS)):
+        yield dict(kind="tbins", out=i)
     for k in (1, 2, 3):
         for sel in itertools.permutations(range(len(POPITEMS)), k):
             yield dict(kind="popselect", sel=list(sel))
@@ -454,5 +456,58 @@ def run_purity(case):
     return dict(states=len(case["seq"]) + 1, transitions=len(case["seq"]), nontrivial=True, violations=vs, counters=dict(purity_sequences=1))
 
 
+TBIN_EDGES = [[S0, S0 + 1.0, S0 + 1.5, S0 + 3.0], [S0 + 0.5, S0 + 0.75, S0 + 2.0, S0 + 2.6, S0 + 3.0]]
+
+
+def run_tbins(case):
+    """the value reported for a time bin [l, u] depends on l, u and the aggregation options only - not on which other bins are asked for in the same
+    call (every sub-list of the edge list with >= 2 edges is a call; every bin is compared across all calls that contain it); an average lies
+    between the smallest and the largest value of the series inside the bin"""
+    w, r = world()
+    o = OUTPUTS[case["out"]]
+    vs = []
+    ncalls = ncmp = 0
+    for pops, method, interp, edges in itertools.product(["pa", ["pa", "pb"], "total"], (None, "integrate", "average"), (None, "previous"), TBIN_EDGES):
+        seen = {}
+        try:
+            raw = {(s_.pop, s_.output): (np.array(s_.tvec, dtype=float), np.array(s_.vals, dtype=float)) for s_ in at.PlotData(r, outputs=[o], pops=pops).series}
+        except Exception:  # noqa
+            continue
+        for k in range(2, len(edges) + 1):
+            for sub in itertools.combinations(edges, k):
+                try:
+                    d = at.PlotData(r, outputs=[o], pops=pops).time_aggregate(np.array(sub), method, interp)
+                except Exception as e:  # noqa
+                    vs.append(V(f"time-aggregation-fails:{type(e).__name__}", f"output {oname(o)} pops={pops} bins {list(sub)} {method}/{interp}: {type(e).__name__}: {str(e)[:120]}", None))
+                    break
+                ncalls += 1
+                for s_ in d.series:
+                    for i, (lo, hi) in enumerate(zip(sub[:-1], sub[1:])):
+                        ncmp += 1
+                        v = float(s_.vals[i])
+                        key = (s_.pop, s_.output, lo, hi)
+                        if key in seen and not np.isclose(v, seen[key][0], rtol=1e-9, atol=1e-12, equal_nan=True):
+                            vs.append(V("time-bin-depends-on-other-bins", f"output {s_.output!r} pop {s_.pop!r} ({method}/{interp}): the bin [{lo}, {hi}] is {v!r} when the edges {list(sub)} are requested and {seen[key][0]!r} when the edges {seen[key][1]} are requested", None))
+                            break
+                        seen.setdefault(key, (v, list(sub)))
+                        if str(s_.units).startswith("Average") and interp is None and np.isfinite(v):
+                            t0, v0 = raw[(s_.pop, s_.output)]
+                            inside = np.concatenate([v0[(t0 >= lo) & (t0 <= hi)], np.interp([lo, hi], t0, v0)])
+                            if v < inside.min() - 1e-9 * max(1, abs(inside.min())) or v > inside.max() + 1e-9 * max(1, abs(inside.max())):
+                                vs.append(V("time-average-outside-range", f"output {s_.output!r} pop {s_.pop!r}: the average over [{lo}, {hi}] (edges {list(sub)}) is {v!r}, outside the range [{inside.min()!r}, {inside.max()!r}] the series takes in the bin", None))
+                                break
+                    if vs:
+                        break
+                if vs:
+                    break
+            if vs:
+                break
+        if vs:
+            break
+    return dict(states=ncalls, transitions=ncmp, nontrivial=ncalls > 0, violations=vs[:2], counters=dict(time_bin_calls=ncalls, time_bins_compared=ncmp))
+
+
 def run_case(case):
+    if case["kind"] == "tbins":
+        return run_tbins(case)
     return dict(select=run_select, popselect=run_popselect, addup=run_addup, cascade_results=run_cascade_results, cascade_data=run_cascade_data, purity=run_purity, purity_progs=run_purity_progs)[case["kind"]](case)
